@@ -1,9 +1,29 @@
 """C25 -- fractured mixed-dimensional grids are geometrically conforming (structured / Cartesian path only).
 
-Simplex meshing goes through gmsh (external process) and is out of scope.  Covered: ``pp.meshing.cart_grid(fracs, nx,
-physdims=...)`` -> ``structured._cart_grid_2d/_3d`` + ``meshing._tag_faces / _assemble_mdg`` +
-``split_grid.split_fractures`` + ``meshing.create_interfaces``, for axis-aligned line (2-D) and rectangle (3-D)
-fractures whose vertices lie on grid nodes.
+Simplex meshing goes through gmsh (external process) and is out of scope.  Covered entry points:
+  * ``pp.meshing.cart_grid(fracs, nx, physdims=...)`` -> ``structured._cart_grid_2d/_3d`` + ``meshing._tag_faces /
+    _assemble_mdg`` + ``split_grid.split_fractures`` + ``meshing.create_interfaces``, for axis-aligned line (2-D) and
+    rectangle (3-D) fractures whose vertices lie on grid nodes; unit, dyadic and decimal (0.1/5, 0.9/3, 1.2/12, ...) cell sizes;
+  * ``pp.create_mdg("cartesian" | "tensor_grid", {"cell_size": h} | {"cell_size_x": ..}, network)`` with ``network =
+    pp.create_fracture_network([pp.LineFracture | pp.PlaneFracture ...], pp.Domain(box))`` -> ``mdg_generation.
+    _preprocess_cartesian_args / _preprocess_tensor_grid_args`` + ``meshing.cart_grid / tensor_grid`` + ``structured.
+    _tensor_grid_2d/_3d``: target sizes that divide and that do not divide the side lengths (0.3 on a unit box, 0.35 on
+    2 x 1), decimal cell sizes (0.02 on 0.1, 0.1 on 1.2), domains whose lower corner is not the origin.  The expected
+    grid lines are  lower corner + k * L / n  with n = round(L / h) computed in exact rational arithmetic from the given
+    domain and target size (the uniform grid whose cell size is closest to the target); the fractures are placed on these
+    lines, so no snapping is involved and the expected geometry is a function of the given domain and fractures only.
+
+The host clause ("host volume equals the domain volume") is evaluated as: the host nodes lie in the given domain box and
+the sum of the host cell volumes equals the domain volume (for cart_grid also: prod(nx) cells).  When it fails the
+remaining clauses, which are formulated on the grid lines of the given domain, are not evaluated for that case.
+
+KNOWN DEFECT OF THE UNCHANGED LIBRARY kept in the sweep (not loosened): ``create_mdg("cartesian", ...)`` on a domain whose
+lower corner is not the origin.  ``_preprocess_cartesian_args`` computes the cell counts from (xmax - xmin) / h but passes
+physdims = [xmax, ymax(, zmax)] to ``cart_grid``, which meshes [0, xmax] x [0, ymax]: Domain [1, 3] x [0, 1], h = 0.5 gives a
+host of volume 3 on [0, 3] x [0, 1] (and fractures snapped on that grid); with a negative lower corner cart_grid can also
+raise ("Elements are not colinear").  Reported with signature "create_mdg cartesian, domain lower corner not at the origin"
+under the obligations "host: volume equals the domain volume" and "create_mdg: returns a mixed-dimensional grid for an
+admissible network".  ``tensor_grid`` on the same inputs is correct.
 
 Oracle (independent of porepy, exact integer arithmetic on grid-index boxes): every fracture is an axis-aligned box
 with one degenerate axis; its unit cells, the pairwise intersections (dimension nd-2), the points where intersection
@@ -30,6 +50,12 @@ Detection power (scratch copy of /repo/src, POREPY_SRC=<copy>, quick tier; every
        caught by "cart_grid: returns a mixed-dimensional grid for an admissible network" (MortarGrid rejects the map)
   M6 mortar_grid._init_projections: side reordering ``order="F"`` -> ``order="C"``
        caught by "mortar: cell (side, c) projects to cell c and one host face per side"
+  M7 structured._create_lower_dim_grids_3d: snapping ``np.round(f * nx / physdims)`` -> ``(f * nx / physdims).astype(int)``
+       (truncation; differs only where the float product lands one ulp below the integer, e.g. 0.06 * 5 / 0.1)
+       caught by "fractures: cells lie on their fracture and tile it exactly" (+ intersections / coupling / tags clauses and
+       cart_grid / create_mdg raising) on the decimal cell-size families of cart_grid and create_mdg("cartesian") in 3-D
+  M8 mdg_generation._preprocess_tensor_grid_args: ``np.linspace(xmin, xmax, n)`` -> ``xmin + cell_size * np.arange(n)``
+       caught by "host: volume equals the domain volume" on create_mdg("tensor_grid") with non-dividing cell sizes (2-D, 3-D)
 
 Observation (not a violation): for non-dyadic cell sizes in 3-D the embedded 2-d fracture grids carry coordinate errors up
 to 5e-11 because structured._create_embedded_2d_grid rounds local coordinates to 1e-10; those cases use tolerance 1e-9.
@@ -40,16 +66,24 @@ META = {
     "level": "exploration",
     "engine": "sweep",
     "technique": "run-time contract sweep (bounded stand-in for deduction): postconditions of the statement evaluated on the real "
-                 "pp.meshing.cart_grid output over enumerated axis-aligned fracture sets; expected objects, couplings and side "
-                 "counts from an exact integer box model of the input",
+                 "pp.meshing.cart_grid and pp.create_mdg('cartesian' | 'tensor_grid') output over enumerated axis-aligned fracture sets; "
+                 "expected objects, couplings and side counts from an exact integer box model of the input, grid lines from the given "
+                 "domain and target cell size in exact rational arithmetic",
     "text": "Bounded (tier B), structured path only: 2-D line fractures and 3-D rectangle fractures on grid lines/planes, 0-3 fractures "
             "(all sets of <= 2 fractures and a seeded sample of triples on the base grids in the quick tier; all triples in 2-D and a larger "
             "3-D sample in the thorough tier), X / T / L / end-to-end configurations, fractures touching the domain boundary, unit, "
-            "dyadic and non-dyadic cell sizes. Not covered (not applicable here): simplex meshes (gmsh is an external process), "
-            "fractures not aligned with grid lines (snapping), fractures lying in the domain boundary, overlapping coplanar fractures "
-            "(rejected by porepy), more than 3 fractures. Exploration level, no claim beyond the enumerated family.",
+            "dyadic and decimal (non-dyadic) cell sizes through pp.meshing.cart_grid; in addition pp.create_mdg with grid types "
+            "'cartesian' and 'tensor_grid' on pp.Domain + pp.create_fracture_network networks (sampled sets of <= 2 fractures plus fixed "
+            "X / T / L sets) with target cell sizes dividing and not dividing the side lengths, per-axis cell sizes (cartesian), "
+            "decimal cell sizes in 3-D, and domains whose lower corner is not the origin (on which create_mdg('cartesian') of the "
+            "unchanged library violates the host-volume clause: kept as a finding). Not covered (not applicable here): simplex meshes "
+            "(gmsh is an external process), fractures not aligned with grid lines (snapping), fractures lying in the domain boundary, "
+            "overlapping coplanar fractures (rejected by porepy), more than 3 fractures, user-supplied x_pts/y_pts/z_pts of tensor grids, "
+            "target sizes for which L / h is a tie k + 1/2. Exploration level, no claim beyond the enumerated family.",
     "note": "requires: fracture vertices on grid nodes, fractures on interior grid lines/planes, two fractures never share a cell "
-            "(no coplanar overlap), three fractures never share a line segment; tolerance 1e-12 relative to the domain size for centres/measures, except 1e-9 for non-dyadic "
+            "(no coplanar overlap), three fractures never share a line segment; create_mdg: the structured grid has round(L / h) cells per "
+            "direction (uniform grid closest to the target size) and the fractures lie on its lines; tolerance 1e-12 relative to the domain "
+            "size for centres/measures, except 1e-9 (not below 1e-10 absolute) for non-dyadic "
             "cell sizes in 3-D where structured._create_embedded_2d_grid rounds local coordinates to 1e-10; the integer box "
             "model of the fracture network is the trusted oracle",
 }
@@ -536,7 +570,7 @@ def mdg_families(tier, rng):
         singles = [(f,) for f in F]
         pairs = list(itertools.combinations(F, 2))
         for gt in types:
-            sets = list(fixed) + rng.sample(singles, min(len(singles), 4 if quick else 20)) + rng.sample(pairs, min(len(pairs), 6 if quick else 150))
+            sets = list(fixed) + rng.sample(singles, min(len(singles), 3 if quick else 20)) + rng.sample(pairs, min(len(pairs), 5 if quick else 150))
             for fs in sets:
                 yield 2, nx, L, fs, False, 1e-12, "create_mdg:" + gt, org, cs
     # ---- 3-D
@@ -635,6 +669,8 @@ def cart_families(tier, rng):
     dec = [(0.1, 5), (0.1, 4), (0.9, 3), (1.1, 3), (2.1, 3), (0.7, 6), (1.2, 12)]
     shapes = [((0, 2), (0, 2)), ((0, 1), (0, 2)), ((1, 2), (0, 2)), ((0, 2), (1, 2))]
     for i, (L, n) in enumerate(dec):
+        if quick and (L, n) == (0.7, 6):
+            continue
         a = i % 3
         nx5, ph5 = [2, 2, 2], [0.1 if L < 0.5 else 1.0] * 3
         nx5[a], ph5[a] = n, L
@@ -660,9 +696,14 @@ def run(rep):
     warnings.simplefilter("ignore")
     rep.under_contract("pp.meshing.cart_grid", "porepy.fracs.structured._cart_grid_2d", "porepy.fracs.structured._cart_grid_3d",
                        "porepy.fracs.meshing._tag_faces", "porepy.fracs.meshing._assemble_mdg", "porepy.fracs.split_grid.split_fractures",
-                       "porepy.fracs.meshing.create_interfaces", "MortarGrid.__init__ / _init_projections (matching case)")
+                       "porepy.fracs.meshing.create_interfaces", "MortarGrid.__init__ / _init_projections (matching case)",
+                       "pp.create_mdg (grid_type 'cartesian', 'tensor_grid')", "porepy.grids.mdg_generation._preprocess_cartesian_args",
+                       "porepy.grids.mdg_generation._preprocess_tensor_grid_args", "pp.meshing.tensor_grid",
+                       "porepy.fracs.structured._tensor_grid_2d", "porepy.fracs.structured._tensor_grid_3d")
     rep.assume("requires: fracture vertices on grid nodes, fractures on interior grid lines/planes, no two fractures share a cell, no three "
                "fractures share a line segment (3-D)",
+               "create_mdg: the structured grid has round(L / h) cells per direction (L / h not a tie); fractures lie on the lines "
+               "lower corner + k * L / n of the given domain",
                "simplex (gmsh) meshing is not applicable to this checker and not claimed",
                "3-D, non-dyadic cell size: tolerance 1e-9 because structured._create_embedded_2d_grid rounds local coordinates to 1e-10")
     rep.trust("exact integer box model of the fracture network (sidecar oracle)")
@@ -671,9 +712,13 @@ def run(rep):
         rule="axis-aligned fractures with vertices on grid nodes, on interior grid lines/planes: 2-D 3x3 grid all sets of <= 2 fractures plus "
              "triples (seeded sample in quick, all in thorough); 2-D other resolutions/physical sizes (sampled sets of <= 2, vertex order "
              "reversed); 3-D 2x2x2 all single rectangles, hand-picked X/T/L/corner/coplanar sets, pairs (sampled in quick, all in thorough), "
-             "sampled triples; 3-D other resolutions/sizes; a case is non-trivial when it has at least one fracture; distinct by "
-             "(nd, nx, physdims, fracture set)",
-        bound="<= 3 fractures; grids up to 4x3 (2-D) and 3x2x2 (3-D)",
+             "sampled triples; 3-D other resolutions/sizes; 3-D decimal side lengths (0.1/5, 0.1/4, 0.9/3, 1.1/3, 2.1/3, 0.7/6, 1.2/12 "
+             "cells along one axis): a rectangle on every interior plane (sampled planes for 12 cells in quick) and one X crossing per grid; "
+             "pp.create_mdg 'cartesian' and 'tensor_grid' on 7 2-D and 6 3-D (domain, target cell size) configurations (dividing / not "
+             "dividing / per-axis / decimal sizes, lower corner at and not at the origin) with fixed and sampled sets of <= 2 fractures; "
+             "a case is non-trivial when it has at least one fracture; distinct by (entry point, nd, nx, side lengths, lower corner, "
+             "cell size, fracture set)",
+        bound="<= 3 fractures; grids up to 6x3 (2-D) and 12x2x2 / 3x3x3 (3-D)",
         exhaustive=False,
     ) as sw:
         classes, entries = {}, {}
